@@ -249,17 +249,17 @@ def run_check(mod: Any, tier: str) -> int:
     # ---------------- counterexamples: replay on uninstrumented code
     known, fixed = load_known(check_id)
     to_replay = []
-    for r in results:
+    for h, r in zip(hs, results):
         seen = set()
         for c in r['cex']:
             key = json.dumps(c['witness'], sort_keys=True, default=str)
             if key in seen:
                 continue
             seen.add(key)
-            to_replay.append({'harness': r['name'], 'witness': c['witness'],
+            to_replay.append({'harness': h.replay, 'name': r['name'], 'witness': c['witness'],
                               'expect': 'violates', 'site': c['site']})
-        for s in r['samples'][:hs[0].max_samples]:
-            to_replay.append({'harness': r['name'], 'witness': s,
+        for s in r['samples'][:h.max_samples]:
+            to_replay.append({'harness': h.replay, 'name': r['name'], 'witness': s,
                               'expect': 'holds', 'site': 'sample'})
     replayed = replay_batch(check_id, to_replay) if to_replay else []
     violations, known_hits, harness_errors = [], {}, []
